@@ -23,6 +23,13 @@ Files(n1, n2) == {<<s>> : s \in Svcs(n1)} \cup {<<s, t>> : s \in Svcs(n2), t \in
 Cases(n1, n2) == [fam : {"gen"}, file : Files(n1, n2), legacynames : BOOLEAN, style : {"camel", "snake"},
                   pkg : {"flat", "nested"}]
 
+\* the request names further files to generate around the file under test:
+\* one without services (messages only) before or after it, or one with a
+\* service of its own before it.  What is emitted for the file under test must
+\* not depend on its neighbours, and a file without services gets no output.
+MultiCases(n1, n2) == [fam : {"gen"}, file : Files(n1, n2), legacynames : BOOLEAN, style : {"camel"}, pkg : {"flat"},
+                       others : {"types-before", "types-after", "svc-before", "types-and-svc-before"}]
+
 \* number of streaming methods among the first j-1 methods of a service
 RECURSIVE StreamsBefore(_, _)
 StreamsBefore(svc, j) ==
@@ -54,4 +61,7 @@ Chk(o) ==
        \cup V(o.pathsok, "stub-path")
        \cup V(o.descok, "stub-or-registration-bound-to-another-service")
        \cup V(o.regs = Len(o.file), "registration-function-count")
+       \cup (IF "others" \in DOMAIN o
+             THEN V(o.outfiles = 1 + (IF o.others \in {"svc-before", "types-and-svc-before"} THEN 1 ELSE 0), "output-file-count")
+             ELSE {})
 =============================================================================
